@@ -359,6 +359,14 @@ func IsException(exception *Type, r interface{}) bool {
 
 // FIXME prototype __getattr__ before we do introspection!
 func (e *Exception) M__getattr__(name string) (Object, error) {
+	// StopIteration.value is the first argument (the return value
+	// of the generator) or None
+	if name == "value" && e.Base != nil && e.Base.IsSubtype(StopIteration) {
+		if args, ok := e.Args.(Tuple); ok && len(args) > 0 {
+			return args[0], nil
+		}
+		return None, nil
+	}
 	return e.Args, nil // FIXME All attributes are args!
 }
 
